@@ -11,3 +11,15 @@ claim("C06", category="model_checking", engine="arraymc",
            "through the recorded split sizes; map sanity is checked on the same state. Exhaustive within the depth bound; all traces are real executions.",
       note="trusted: libvp interposition (frozen clock/urandom/statfs), the lab's version store as ground truth for file bytes, vpref.c as field/generator reference; arrays have <=4 disks and 1-2 KiB blocks",
       design="3 C06")
+
+claim("C01", category="model_checking", engine="arraymc",
+      technique="explicit-state BFS over sync histories on the real CLI, then exhaustive enumeration of every fault set within the parity level on every distinct synced state",
+      text="Phase 1 enumerates every operation sequence of depth<=2 (quick) / <=3 (thorough) over deletes, adds, rewrites, moves (also across disks), "
+           "partial (-B/-S), forced (-F) and re-allocating (-R) syncs from a synced tree containing every boundary size, odd byte names, symlinks, "
+           "hardlinks and empty directories; configurations cover 1,2,3z,6 levels (+3,4,5 thorough), split parity, hash kinds/sizes, content copies on "
+           "data disks and a removed-disk position hole. Phase 2 applies, to every distinct state that follows a complete successful sync, every subset "
+           "of <=N devices as lost / corrupted with unchanged timestamps / mixed, every rotating per-stripe pattern of N damaged blocks and every single "
+           "file, link or directory deletion/truncation; after fix the data trees must equal the sync-time snapshot (bytes, mtime, link targets, "
+           "hard-link identity, empty dirs), fix and a following check must report no error, and the C06 parity oracle must hold.",
+      note="trusted: lab ground truth and libvp; <=4 data disks, 1-2 KiB blocks; corruption shapes only with hash size>=8; the decoder algebra for up to 251 disks is C02/C03's subject",
+      design="3 C01")
